@@ -282,7 +282,19 @@ func cartOf(v tla.Value) []string {
 func shopcartScenario(w *sim.World) {
 	n := 2 + w.Choose(sim.KCfg, 2)
 	interval := []time.Duration{5 * time.Millisecond, 50 * time.Millisecond}[w.Choose(sim.KCfg, 2)]
-	desc := fmt.Sprintf("shopcart nodes=%d broadcast=%v (real CRDT resource with LWWSet as in bootstrap.go, net/rpc)", n, interval)
+	// a third of the runs use the add-wins set the specification describes (AWORSet) instead of
+	// the LWWSet the shipped bootstrap wires in; there each element is commanded by one node
+	// only (the others observe), so that the recorded AWORSet finding (C12: a concurrent add and
+	// remove of one element by different replicas) cannot occur and every oracle below applies
+	aw := w.Choose(sim.KCfg, 3) == 1
+	var setType resources.CRDTValue = resources.LWWSet{}
+	setName := "LWWSet as in bootstrap.go"
+	if aw {
+		setType = resources.AWORSet{}
+		setName = "AWORSet as in shopcart.tla, one commanding node per element"
+		w.Probe("shopcart_aworset")
+	}
+	desc := fmt.Sprintf("shopcart nodes=%d broadcast=%v (real CRDT resource with %s, net/rpc)", n, interval, setName)
 	addr := func(i int) string { return fmt.Sprintf("cart%d:9100", i) }
 	elems := []string{"1", "2", "3"}
 	var ops []*cartOp
@@ -296,6 +308,19 @@ func shopcartScenario(w *sim.World) {
 		fmt.Fprintf(&sb, " N%d:", i)
 		for j := 0; j < k; j++ {
 			o := &cartOp{node: i, add: w.Choose(sim.KOp, 3) != 0, elem: elems[w.Choose(sim.KOp, len(elems))]}
+			if aw {
+				// elements owned by node i: those whose ordinal is congruent to i modulo n
+				var own []string
+				for k, e := range elems {
+					if k%n == i%n {
+						own = append(own, e)
+					}
+				}
+				if len(own) == 0 {
+					continue
+				}
+				o.elem = own[w.Choose(sim.KOp, len(own))]
+			}
 			ops = append(ops, o)
 			fmt.Fprintf(&sb, "%s%s ", map[bool]string{true: "+", false: "-"}[o.add], o.elem)
 		}
@@ -315,7 +340,7 @@ func shopcartScenario(w *sim.World) {
 				peers = append(peers, tla.MakeNumber(int32(p)))
 			}
 		}
-		crdt := resources.NewCRDT(self, peers, func(id tla.Value) string { return addr(int(id.AsNumber())) }, resources.LWWSet{},
+		crdt := resources.NewCRDT(self, peers, func(id tla.Value) string { return addr(int(id.AsNumber())) }, setType,
 			resources.WithCRDTBroadcastInterval(interval), resources.WithCRDTSendTimeout(2*time.Second), resources.WithCRDTDialTimeout(2*time.Second))
 		ctxs[i] = distsys.NewMPCalContext(self, shopcart.ANode,
 			distsys.DefineConstantValue("NumNodes", tla.MakeNumber(int32(n))),
